@@ -461,6 +461,19 @@ def in_frame(self, st, oid, fld) -> bool:
     return (oid, fld) in fr or fld in st.ghost.get("$frame_any", ())
 
 
+def loop_hints(self, st: State, ordinal, ctx_extra, at_exit=False):
+    """instances of the defining equations of spec functions (folds), supplied by the contract where the solver needs them"""
+    hints = (getattr(self.cur_contract, "loop_hints", None) or {}).get(ordinal)
+    if not hints:
+        return
+    ctx = Ctx(self, st, self.self_ref, st.ghost.get("$args", {}), extra=ctx_extra)
+    for h in hints(ctx):
+        try:
+            st.assume(h)
+        except Exception:
+            pass
+
+
 def check_inv(self, st: State, spec: LoopSpec, which: str, ordinal, ctx_extra):
     ctx = Ctx(self, st, self.self_ref, st.ghost.get("$args", {}), extra=ctx_extra)
     if which == "pres" and spec.modifies is not None:
@@ -577,6 +590,7 @@ def for_over(self, node, st: State, it):
         all_elems = ops.seq_elems(it.term, es)
         sset_t = SetT(elem_ty)
         extra0 = {"i": z3.IntVal(0), "seq": it.term, "seen_elems": sset_t.empty()}
+        self.loop_hints(st, ordinal, extra0)
         self.check_inv(st, spec, "init", ordinal, extra0)
         s = st.fork()
         self.havoc_for_loop(node, s, spec)
@@ -588,6 +602,7 @@ def for_over(self, node, st: State, it):
         # exit path
         s_exit = s.fork()
         self.assume_inv(s_exit, spec, {"i": n, "seq": it.term, "seen_elems": all_elems})
+        self.loop_hints(s_exit, ordinal, {"i": n, "seq": it.term, "seen_elems": all_elems}, at_exit=True)
         s_exit.trail.append(f"for{ordinal}=exit")
         # body path
         s.assume(z3.And(i >= 0, i < n))
@@ -595,6 +610,7 @@ def for_over(self, node, st: State, it):
         s.assume(z3.SubSeq(it.term, 0, i + 1) == z3.Concat(z3.SubSeq(it.term, 0, i), z3.Unit(it.term[i])))
         s.assume(z3.Select(all_elems, it.term[i]))
         self.assume_inv(s, spec, {"i": i, "seq": it.term, "seen_elems": seen_elems})
+        self.loop_hints(s, ordinal, {"i": i, "seq": it.term, "seen_elems": seen_elems})
         s.trail.append(f"for{ordinal}=body")
         exits = [(OK, s_exit, None)]
         if quick_sat(s.pc):
@@ -723,6 +739,6 @@ for _name, _obj in list(globals().items()):
     if callable(_obj) and (_name.startswith("s_") or _name in (
             "exec_block", "exec_stmt", "assign_target", "rel_line_cur", "apply_annotation", "annotation_type", "rel_line", "enter_cm",
             "lock_identity", "exit_cm", "exc_is_subclass", "match_handler", "loop_spec", "mutated_local_collections",
-            "havoc_for_loop", "in_frame", "check_inv", "assume_inv", "for_over", "do_yield", "yield_repr", "cur_gen_elem",
+            "havoc_for_loop", "in_frame", "check_inv", "loop_hints", "assume_inv", "for_over", "do_yield", "yield_repr", "cur_gen_elem",
             "do_yield_from")):
         setattr(Engine, _name, _obj)
